@@ -15,10 +15,18 @@
     * a crash: the tail file keeps all fsync'ed bytes plus any k-byte prefix of the bytes
       written since (flushed to the OS or still in the bufio buffer) → `Writer.crash`
 
-  The model describes the REPAIRED code (fixes/F2_wal_repair.diff):
+  Crash points INSIDE functions (file-system effects in the order the code issues them, each
+  directory operation atomic): `Writer.crashInShift` (flush, fsync, create next segment) and
+  `recoverPartial` (CloseAndRepair: remove the later segments from the tail downwards, then
+  truncate the segment holding the valid end).
+
+  The model describes the REPAIRED code (fixes/F2_wal_repair.diff, F2b_…, F2c_…):
     F2   CloseAndRepair removed `fileFor(id, idx)` instead of `fileFor(id, i)`;
     F2b  ReadBytes reported a frame whose header is complete but whose payload is
          entirely missing as a clean io.EOF, so the torn header was never repaired.
+    F2c  CloseAndRepair truncated first and removed the later segments in ascending order: a
+         crash between two removes left a hole in the segment numbering, after which
+         OpenWALForRead fails with ENOENT and consensus.applyWAL treats the WAL as absent.
   The original behaviour is kept in namespace `Orig` for the witness theorems.
 
   The CRC function is a parameter (`crc : Bytes → UInt32`); `crc32c` below is the
@@ -107,6 +115,12 @@ def readBytes (crc : Bytes → UInt32) (s : Bytes) : Except ReadEnd (Bytes × By
       if (crc payload).toNat ≠ crcR then .error .corrupted
       else .ok (payload, rest.drop len)
 
+/-- "the checksum detects it": the CRC field stored in the first 4 bytes of `B` differs from the
+    CRC of the bytes the reader is going to check (the `len` bytes after the 8-byte header, `len`
+    being the stored length field). The hypothesis of the corruption theorems. -/
+def CrcRejects (crc : Bytes → UInt32) (B : Bytes) : Prop :=
+  (crc ((B.drop headerLen).take (beNat ((B.drop 4).take 4)))).toNat ≠ beNat (B.take 4)
+
 /-- the recovery loop: read records until the first error.
     Returns (records, validOffset, how it ended). `validOffset += int64(headerLen + payloadLen)`
     is a uint32 addition in Go. -/
@@ -132,6 +146,39 @@ def repairLoop : Nat → List Bytes → List Bytes
     if left ≤ s.length then
       [if left < s.length then s.take left else s]
     else s :: repairLoop (left - s.length) rest
+
+/-- position (in the file list) of the segment at which the loop of CloseAndRepair stops
+    (`fs.length` if it never stops) -/
+def cutIndex : Nat → List Bytes → Nat
+  | _, [] => 0
+  | left, s :: rest => if left ≤ s.length then 0 else 1 + cutIndex (left - s.length) rest
+
+/-- value of `left` when the loop stops -/
+def cutLeft : Nat → List Bytes → Nat
+  | left, [] => left
+  | left, s :: rest => if left ≤ s.length then left else cutLeft (left - s.length) rest
+
+/-- The files after the first `j` file-system effects of CloseAndRepair (valid offset `v`).
+    Effects in the order of the repaired code: `os.Remove` of the later segments from the tail
+    downwards, then `os.Truncate` of the segment holding the valid end (if `left < size`). -/
+def repairPartial (v j : Nat) (fs : List Bytes) : List Bytes :=
+  if j ≤ fs.length - (cutIndex v fs + 1) then fs.take (fs.length - j)   -- j removes happened
+  else repairLoop v fs                                                   -- all removes and the truncate
+
+/-- the effects themselves (segment indices are absolute), for the correspondence run -/
+inductive FsEffect where
+  | remove (idx : Nat)
+  | truncate (idx : Nat) (len : Nat)
+  | write (idx : Nat)
+  | create (idx : Nat)
+  deriving Repr, DecidableEq
+
+def repairEffects (head v : Nat) (fs : List Bytes) : List FsEffect :=
+  let c := cutIndex v fs
+  if c ≥ fs.length then []
+  else
+    ((List.range (fs.length - (c + 1))).map fun i => FsEffect.remove (head + fs.length - 1 - i))
+    ++ (if cutLeft v fs < (fs.getD c []).length then [FsEffect.truncate (head + c) (cutLeft v fs)] else [])
 
 /-! ## disk, writer -/
 
@@ -216,6 +263,17 @@ def Writer.crash (w : Writer) (k : Nat) : Disk :=
 /-- `Close`: sync and close -/
 def Writer.close (w : Writer) : Disk := w.sync.disk
 
+/-- crash inside `shift` after `j` of its file-system effects: 1 = buffer flushed to the OS,
+    2 = old tail fsync'ed, 3 = next segment created (the in-memory switch of the writer dies with the
+    process). Before the fsync the tail keeps its durable bytes plus `k` of the others. -/
+def Writer.crashInShift (w : Writer) (j k : Nat) : Disk :=
+  if j < 2 then w.crash k
+  else if j = 2 then w.sync.crash 0
+  else w.shift.crash 0
+
+def shiftEffects (w : Writer) : List FsEffect :=
+  (if w.buf.length = 0 then [] else [FsEffect.write w.tailIdx]) ++ [FsEffect.create (w.tailIdx + 1)]
+
 /-- recovery as in consensus.go: `none` when OpenWALForRead fails (no file). -/
 def recover (crc : Bytes → UInt32) (d : Disk) : Option (List Bytes × ReadEnd × Disk) :=
   if d.files = [] then none
@@ -224,6 +282,25 @@ def recover (crc : Bytes → UInt32) (d : Disk) : Option (List Bytes × ReadEnd 
     match r.2.2 with
     | .eof => some (r.1, .eof, d)
     | e => some (r.1, e, { d with files := repairLoop r.2.1 d.files })
+
+/-- a recovery whose CloseAndRepair dies after `j` file-system effects: what is left on disk -/
+def recoverPartial (crc : Bytes → UInt32) (j : Nat) (d : Disk) : Disk :=
+  if d.files = [] then d
+  else
+    let r := readAll crc d.files.flatten
+    match r.2.2 with
+    | .eof => d
+    | _ => { d with files := repairPartial r.2.1 j d.files }
+
+/-- where the writer process dies -/
+inductive CrashPoint where
+  | appending (k : Nat)        -- outside Shift: k unsynced bytes survive
+  | inShift (j k : Nat)        -- inside Shift after j effects
+  deriving Repr
+
+def Writer.crashAt (w : Writer) : CrashPoint → Disk
+  | .appending k => w.crash k
+  | .inShift j k => w.crashInShift j k
 
 /-! ## histories -/
 
@@ -234,6 +311,9 @@ inductive Op where
   | housekeep
   | crashRecover (k : Nat)   -- crash keeping k unsynced bytes, recover (read + repair), reopen for append
   | restart                  -- clean Close, recover, reopen
+  /-- crash at `p`; then one recovery attempt per element of `js`, each dying inside CloseAndRepair
+      after that many file-system effects; then a recovery that completes, reopen -/
+  | crashAt (p : CrashPoint) (js : List Nat)
   deriving Repr
 
 abbrev Sys := Writer
@@ -252,6 +332,7 @@ def stepOp (crc : Bytes → UInt32) (w : Sys) : Op → Sys × List Bytes
   | .shift => (w.shift, [])
   | .housekeep => (w.housekeep, [])
   | .crashRecover k => recoverReopen crc w.cfg (w.crash k)
+  | .crashAt p js => recoverReopen crc w.cfg (js.foldl (fun d j => recoverPartial crc j d) (w.crashAt p))
   | .restart => recoverReopen crc w.cfg w.close
 
 def run (crc : Bytes → UInt32) (w : Sys) : List Op → Sys
@@ -293,6 +374,7 @@ def stepGhost (crc : Bytes → UInt32) (w : Sys) (g : Ghost) : Op → Ghost
     let n1 := if w.tail.length > w.cfg.fileLimit ∨ (w.dirty && w.cfg.syncDue) = true then g.log.length else g.nsynced
     { log := g.log.drop removed, nsynced := n1 - removed, retired := g.retired + removed }
   | .crashRecover k => let r := (stepOp crc w (.crashRecover k)).2; { g with log := r, nsynced := r.length }
+  | .crashAt p js => let r := (stepOp crc w (.crashAt p js)).2; { g with log := r, nsynced := r.length }
   | .restart => let r := (stepOp crc w .restart).2; { g with log := r, nsynced := r.length }
 
 /-- system and bookkeeping run side by side -/
@@ -306,8 +388,35 @@ def Op.plain : Op → Prop
   | .write p => p.length + 8 < 2 ^ 32
   | _ => True
 
+/-- the ops that end in a recovery after a crash -/
+def Op.isCrash : Op → Prop
+  | .crashRecover _ => True
+  | .crashAt _ _ => True
+  | _ => False
+
 /-! ## original (unrepaired) behaviour, for the witness theorems only -/
 namespace Orig
+
+/-- CloseAndRepair with F2 repaired but the original order of effects (truncate first, then
+    `os.Remove` of the later segments in ASCENDING order), on files given with their index:
+    the files after the first `j` effects. -/
+def repairPartialAsc (v j : Nat) (fs : List (Nat × Bytes)) : List (Nat × Bytes) :=
+  let bs := fs.map (·.2)
+  let c := cutIndex v bs
+  match fs.drop c with
+  | [] => fs
+  | (i, s) :: later =>
+    let need : Bool := decide (cutLeft v bs < s.length)
+    let t := if need then 1 else 0
+    let s' := if need && decide (j ≥ 1) then s.take (cutLeft v bs) else s
+    fs.take c ++ [(i, s')] ++ later.drop (j - t)
+
+/-- `OpenWALForRead` opens every index from the lowest to the highest one; a missing one is an
+    ENOENT error, which consensus.applyWAL takes for "there is no WAL". -/
+def openable (fs : List (Nat × Bytes)) : Bool :=
+  match fs with
+  | [] => false
+  | (i, _) :: _ => fs.map (·.1) == List.range' i fs.length
 
 /-- original ReadBytes: a complete header followed by no payload byte at all is a clean io.EOF -/
 def readBytes (crc : Bytes → UInt32) (s : Bytes) : Except ReadEnd (Bytes × Bytes) :=
